@@ -89,6 +89,12 @@ func c01Programs(tier string) []*Spec {
 			mk("prio", func(sp *Spec) { sp.Clients[0] = append([]Op{{K: "prio", B: 0, N: 5}}, sp.Clients[0]...) })
 			mk("write", func(sp *Spec) { sp.Clients = append(sp.Clients, []Op{{K: "write", S: "hello\n"}}) })
 			mk("cancel", func(sp *Spec) { sp.Clients[1] = []Op{{K: "incr", B: 1, N: 1}, {K: "cancel"}} })
+			mk("queued", func(sp *Spec) {
+				// a successor queued behind bar 1 (bar 0 was added first, so it is re-pushed after the successor)
+				sp.Bars = append(sp.Bars, BarSpec{Total: 1, After: 2, Pre: []DecorSpec{syncD(4, 2)}})
+				sp.Main = append(sp.Main, Op{K: "add", B: 2})
+				sp.Clients = append(sp.Clients, []Op{{K: "incr", B: 2, N: 1}})
+			})
 			mk("barwait", func(sp *Spec) { sp.Clients = append(sp.Clients, []Op{{K: "barwait", B: 0}, {K: "barwait", B: 1}}) })
 			if tier != "quick" {
 				mk("unknown-total", func(sp *Spec) {
